@@ -107,6 +107,8 @@ impl Database {
             #[cfg(jiff_verif)]
             crate::verif::acquire_read(&self.zones, "zi.get.zones_read");
             let zones = self.zones.read().unwrap();
+            #[cfg(jiff_verif)]
+            crate::verif::point("zi.get.zones_read_held");
             if let Some(czone) = zones.get(query) {
                 if !czone.is_expired() {
                     trace!(
@@ -451,6 +453,8 @@ impl ZoneInfoNames {
             #[cfg(jiff_verif)]
             crate::verif::acquire_read(&self.inner, "zi.names.get_read");
             let inner = self.inner.read().unwrap();
+            #[cfg(jiff_verif)]
+            crate::verif::point("zi.names.get_read_held");
             if let Some(zone_info_name) = inner.get(query) {
                 return Some(zone_info_name);
             }
